@@ -241,8 +241,22 @@ class Gen:
             self.add(cat, e, buf, crc)
         self.add(cat, "cyD", buf, crc, guard=1)
         if mem:
-            for e in ("cyM", "pyM"):
+            for e in self.mem_entries(cat):
                 self.add(cat, e, buf, crc)
+
+    N_CATS = ("valid", "corpus", "short-batch", "truncated-consistent")
+
+    def mem_entries(self, cat):
+        """MemoryRecords under the has_next()-guarded driver (M) and, for the categories where the end of
+        the buffer matters (everything in the thorough tier), also driven by next_batch() until None (N)"""
+        if cat in self.N_CATS:
+            return ("cyM", "pyM", "cyN", "pyN")
+        if self.ctx.thorough:
+            # single batches differ between the drivers only at the end of the buffer: every 3rd suffices
+            self._nth = getattr(self, "_nth", 0) + 1
+            if cat != "byte-mutation" or self._nth % 3 == 0:
+                return ("cyM", "pyM", "cyN", "pyN")
+        return ("cyM", "pyM")
 
     def batch_l(self, cat, buf, magic, crc=None, also_other_magic=False, mem=True):
         crc = self.rng.randrange(2) if crc is None else crc
@@ -254,13 +268,13 @@ class Gen:
             for e in ("cyL", "pyL"):
                 self.add(cat, e, buf, crc, 1 - magic)
         if mem:
-            for e in ("cyM", "pyM"):
+            for e in self.mem_entries(cat):
                 self.add(cat, e, buf, crc)
 
     def mem(self, cat, buf, crc=None):
         crc = self.rng.randrange(2) if crc is None else crc
         self.inputs += 1
-        for e in ("cyM", "pyM"):
+        for e in ("cyM", "pyM", "cyN", "pyN"):
             self.add(cat, e, buf, crc)
 
     def var(self, cat, buf, pos=0):
@@ -318,7 +332,7 @@ class Gen:
         ctx, rng = self.ctx, self.rng
         thorough = ctx.thorough
         corpus = self.corpus()
-        rounds = 6 if thorough else 1
+        rounds = 5 if thorough else 1
         for rnd in range(rounds):
             if rnd:
                 corpus = self.corpus()
@@ -456,11 +470,32 @@ class Gen:
             i = rng.randrange(len(cat))
             self.mem("mixed-magic-mutated", cat[:i] + bytes([rng.randrange(256)]) + cat[i + 1:])
             self.mem("mixed-magic-truncated", cat[:rng.randrange(len(cat))])
+        self.trailing_partial(plain)
         # hostile outer length fields
         a = plain[0]
         for L in BOUNDARY["i32"] + [len(a) - 12 - 1, len(a) - 12 + 1, 2 * len(a)]:
             self.mem("outer-length", a[:8] + struct.pack(">i", L) + a[12:] + a)
             self.mem("outer-length", a + a[:8] + struct.pack(">i", L) + a[12:] + a)
+
+    def trailing_partial(self, plain):
+        """complete batches followed by a partial one, at EVERY truncation point; the prefix is longer
+        than the partial batch, so its announced size always fits the whole buffer and only a test
+        against what is LEFT (buffer_len - pos) keeps the slice inside - both drivers, both
+        implementations; plus bare 12..20-byte trailers announcing sizes around that boundary"""
+        rng = self.rng
+        prefixes = [plain[0] + plain[2] + plain[1], plain[3] + plain[4] + plain[5] + plain[0]]
+        if self.ctx.thorough:
+            prefixes += [plain[1] + plain[1] + plain[1] + plain[1], plain[5] + plain[2] + plain[0] + plain[3]]
+        for a in prefixes:
+            for b in plain:
+                for k in range(1, len(b)):
+                    self.mem("trailing-partial", a + b[:k])
+            for extra in (12, 13, 17, 20, 26):
+                left = extra - 12
+                for L in (left - 1, left, left + 1, 14, 26, len(a) - 12, len(a) + left - 12, len(a) + left - 11,
+                          len(a) + left - 13):
+                    tail = struct.pack(">qi", 7, L) + bytes([0, 0, 0, 0, rng.choice([0, 1, 2])] + [0] * 20)[:left]
+                    self.mem("trailing-partial-length", a + tail)
 
     def random_strings(self, n):
         rng = self.rng
@@ -754,7 +789,7 @@ def _run(ctx, tmp, t0):
             buf = bytes.fromhex(c["buf"]) if c["buf"] != "-" else b""
             g.add("corpus", c["entry"], buf, int(c.get("crc", 1)), int(c.get("magic", 0)), int(c.get("pos", 0)),
                   int(c.get("guard", 0)))
-            if c["entry"].startswith("cy") and c["entry"] != "cyM":
+            if c["entry"].startswith("cy") and c["entry"] not in ("cyM", "cyN"):
                 g.add("corpus", c["entry"], buf, int(c.get("crc", 1)), int(c.get("magic", 0)), int(c.get("pos", 0)), 1)
         g.generate()
         jobs, cats, n_inputs = g.jobs, g.cat, g.inputs
@@ -899,7 +934,9 @@ def _run(ctx, tmp, t0):
         "compressed payloads with inconsistent inner lengths/sizes/offsets/truncation/double compression, unknown "
         "codecs, codec garbage, batches of 0..69 bytes for 7 magic values, mixed-magic concatenations with mutation and "
         "truncation, hostile outer lengths, random strings, varints (over-long, truncated, >10 bytes); each through "
-        "DefaultRecordBatch / LegacyRecordBatch / MemoryRecords of both implementations with and without "
+        "DefaultRecordBatch / LegacyRecordBatch / MemoryRecords (driven by `while has_next(): next_batch()` = entries "
+        "cyM/pyM AND by `next_batch()` until None = cyN/pyN; complete batches followed by a partial one at every "
+        "truncation point) of both implementations with and without "
         "validate_crc(). distinct = (entry, crc, magic, pos, bytes); non-trivial = at least 12 bytes")
     for k in (0, len(ijobs) // 3, 2 * len(ijobs) // 3):
         if k < len(ijobs):
@@ -1025,7 +1062,7 @@ def neighbourhood_search(ctx, runners, tmp, jobs, mism, cfg, case):
                 cands.append(buf[:k] + bytes([v]) + buf[k + 1:])
         for cnd in cands:
             for gd in (0, 1):
-                key = (entry, crc, magic, pos, gd if entry != "cyM" else 0, cnd)
+                key = (entry, crc, magic, pos, gd if entry not in ("cyM", "cyN") else 0, cnd)
                 if key not in seen:
                     seen.add(key)
                     extra.append(key)
